@@ -163,6 +163,7 @@ def _generators(cell):
 
 
 FD_EPS = 1e-8
+_REPEAT = True
 # signature facet of a representation (python scalars exist for one-component variables only: folding them into the
 # class of their type keeps the signature of one defect the same in every dimension; the message names the exact form)
 XREP_CLASS = {"float64": "float64", "pyfloat": "float64", "int64": "int", "pyint": "int", "list": "list", "float32": "float32"}
@@ -324,7 +325,7 @@ def eval_cell(cell):
         # a row at one interior point a, then at another point b, then at a again; every single result is judged by the
         # same oracle (raises, or the derivative of the object's logd at that point).  Points whose first evaluation was
         # already wrong are left out: this pass reports what depends on the history of evaluations only.
-        if case.inside:
+        if case.inside and _REPEAT:
             seq = [case.inside[-1]] * 3
             if len(case.inside) > 1:
                 seq += [case.inside[0], case.inside[-1]]
